@@ -30,3 +30,6 @@ Arguments energy_levels {A}. Arguments g0 {A}. Arguments w_e {A}. Arguments b_e 
 Arguments sigma_s {A}. Arguments linear_yn {A}. Arguments wi_e {A}. Arguments abc_e {A}.
 Arguments polarisability {A}. Arguments multiplicity {A}. Arguments effective_electrons {A}.
 Arguments electron_cross_section {A}. Arguments emission_lines {A}.
+
+Definition dummy_species {A : Type} (z : A) : species A :=
+  mkSpecies A KElectron 0 nil z 0%Z z z nil z z z z false nil nil z z None None nil.
